@@ -121,6 +121,7 @@ def cases(tier, seed):
                 out.append({"k": "reduce", "s": list(shape), "rot": rot, "v": var})
         out.append({"k": "diff", "s": list(shape)})
     out.append({"k": "ediff1d"})
+    out.append({"k": "twins"})
     out.append({"k": "innerouter"})
     out.append({"k": "matmul"})
     for d in (1, 2, 3, 4):
@@ -169,6 +170,18 @@ def run_case(case, R):
         judge(R, f"prod() on {shape}", "prod", lambda: numpoly.prod(p), lambda: numpy.prod(mo), tags + ["axis=None"])
         judge(R, f"mean() on {shape}", "mean", lambda: numpoly.mean(p), lambda: frac(m).map(numpy.mean), tags + ["axis=None"], close=True)
         R.sample({"array": str(p).replace("\n", " ")[:160], "axes": [str(a) for a in axes_choices(nd)]})
+    elif k == "twins":
+        seq = [sp for sp in space.twin_sequence() if tuple(sp["s"]) == (2,)]
+        for i, sp in enumerate(seq):
+            p, m = build_checked(sp), model_of(sp)
+            mo = to_obj(m)
+            R.state(("twins", i))
+            judge(R, f"sum twin {i}", "sum", lambda: numpoly.sum(p), lambda: m.map(numpy.sum), ["twins"])
+            judge(R, f"prod twin {i}", "prod", lambda: numpoly.prod(p), lambda: numpy.prod(mo), ["twins"])
+            judge(R, f"cumsum twin {i}", "cumsum", lambda: numpoly.cumsum(p), lambda: m.map(numpy.cumsum), ["twins"])
+            judge(R, f"outer twin {i}", "outer", lambda: numpoly.outer(p, p), lambda: numpy.outer(mo, mo), ["twins"])
+            judge(R, f"inner twin {i}", "inner", lambda: numpoly.inner(p, p), lambda: numpy.inner(mo, mo), ["twins"])
+            judge(R, f"diff twin {i}", "diff", lambda: numpoly.diff(p), lambda: m.map(numpy.diff), ["twins"])
     elif k == "diff":
         shape = tuple(case["s"])
         nd = len(shape)
